@@ -10,7 +10,7 @@ import random
 from . import env
 from .tasks import VEC_FAMS, PERM_FAMS
 
-UNIVERSE_VERSION = "pvmon-v1"
+UNIVERSE_VERSION = "pvmon-v2"
 UNIVERSE_SIZE = int(os.environ.get("PVMON_UNIVERSE", "400000"))
 
 _BASE = None
@@ -60,6 +60,23 @@ def make_config(rng, opt, perturbed=None, pop_factor=None, max_cycles=None, stop
         perturbed = rng.random() < 0.3
     if perturbed:
         klass = "perturbed"
+        # optional parameters the documented configuration leaves at their defaults
+        fields = env.config_class(opt).model_fields
+        for k in sorted(fields):
+            if k in base or k in ("early_stopping", "fitness_error"):
+                continue
+            d = fields[k].default
+            trial = dict(base)
+            if isinstance(d, bool):
+                trial[k] = (not d) if rng.random() < 0.5 else d
+            elif isinstance(d, int):
+                trial[k] = d + rng.choice([-2, -1, 0, 1, 2])
+            elif isinstance(d, float):
+                trial[k] = d * rng.uniform(0.8, 1.2)
+            else:
+                continue
+            if config_valid(opt, trial):
+                base = trial
         for k in sorted(base):
             if k in ("population_size", "max_cycles", "fitness_error", "early_stopping"):
                 continue
@@ -115,7 +132,7 @@ def _items(rng):
 
 
 def _vec_obj(rng):
-    fam = rng.choice(["sphere", "sphere", "abs", "linear", "rastrigin", "hash", "hash", "plateau"])
+    fam = rng.choice(["sphere", "sphere", "abs", "linear", "rastrigin", "hash", "hash", "plateau", "hinge"])
     p = {}
     r = rng.random()
     if r < 0.2:
@@ -127,7 +144,9 @@ def _vec_obj(rng):
     elif r < 0.45:
         p["scale"] = -1.0
     if fam in ("sphere", "abs", "rastrigin"):
-        p["shift"] = rng.choice([0.3, -0.7, 0.0, 2.1])
+        p["shift"] = rng.choice([0.3, -0.7, 0.0, 0.0, 2.1])
+    if fam == "hinge":
+        p["tol"] = rng.choice([0.5, 2.0, 30.0])
     return {"fam": fam, "p": p}
 
 
